@@ -38,7 +38,7 @@ IMPURE_METHODS = {"uniform", "choice", "permutation", "integers", "normal", "ran
                   "multivariate_normal", "laplace", "exponential", "permuted", "rand", "randn", "randint", "random_sample",
                   "pop", "popitem"}
 MUTATORS = {"append", "extend", "insert", "pop", "remove", "clear", "sort", "reverse", "add", "discard", "update",
-            "fill", "setdefault", "popitem", "shuffle", "difference_update", "intersection_update", "symmetric_difference_update"}
+            "fill", "setdefault", "popitem", "shuffle", "__delitem__", "difference_update", "intersection_update", "symmetric_difference_update"}
 
 
 def is_const(t, *vals):
